@@ -185,10 +185,25 @@ def client_worker(job):
             f.write(text)
         if paths:
             text = ' | '.join(open(p).read().replace('\n', ' ; ') for p in paths)
+        prev = None
         for host in ('a', 'ab', 'b.example'):
             for user in (None, 'u'):
                 for port in (None, 2222):
                     viol = compare(cfgpath, host, user, port, paths)
+                    # the same files re-evaluated for the next target on top of the previous evaluation (what a
+                    # server does when the user name changes, and connect() for canonical/final passes): nothing of
+                    # the previous target may stick
+                    try:
+                        fresh = SSHClientConfig.load(None, paths or [cfgpath], False, False, False, 'root', user or (), host, port or ())
+                        chained = SSHClientConfig.load(prev, paths or [cfgpath], True, False, False, 'root', user or (), host, port or ())
+                        if chained._options != fresh._options:         # pylint: disable=protected-access
+                            diff = {k: (chained._options.get(k), fresh._options.get(k)) for k in set(chained._options) | set(fresh._options)
+                                    if chained._options.get(k) != fresh._options.get(k)}
+                            viol.append(('reload-keeps-previous-target', 're-evaluated for host=%s user=%s port=%s after another target: %r (chained, fresh)'
+                                         % (host, user, port, diff)))
+                        prev = chained
+                    except Exception as exc:        # pylint: disable=broad-except
+                        prev = None
                     acc.add(core.digest((headers, variant, host, user, port)), transitions=1,
                             sample={'config': text[:300], 'target': [host, user, port]} if len(headers) == 2 and variant == 'tokens' and host == 'ab' and user else None)
                     for k, d in viol:
@@ -272,6 +287,7 @@ def main(tier, seed):
             'Hostname with %%h, IdentityFile with %%h %%r %%p %%n %%%% %%d %%u, multiple SendEnv words, SetEnv; Include '
             'of existing, nested-Host and non-matching glob files; one Include naming several files or a glob matching '
             'several, some ending inside a non-matching block; the blocks as separate files given as a list) x 12 targets (3 hosts x user x port) vs ssh -G; '
+            'each program also re-evaluated target after target on top of the previous evaluation (reload): equal to a fresh load; '
             'server: %d AuthorizedKeysFile templates x %d user names' % (depth, len(HEADERS), len(TEMPLATES), len(USERS)))
     return core.finish(PROP, tier, seed, 'exploration', acc, t0, rule,
                        {'programs': len(progs), 'ssh_G_calls': n_client},
